@@ -108,11 +108,6 @@ theorem shape_sumSafe_false (σ₀ : Val) {e : Expr} {rs : List Var} (h : Shape 
       obtain ⟨v, hv, rfl⟩ := List.mem_map.1 hm
       exact List.mem_map.2 ⟨v, (mem_sortVars v rs).1 hv, rfl⟩
 
-/-- `a / b` for two expressions that are not fractions and have different values -/
-theorem shape_truediv (σ₀ : Val) {a b e : Expr} (ha : Shape card leaf σ₀ a) (hb : Shape card leaf σ₀ b)
-    (hfa : isFrac a = false) (hfb : isFrac b = false) (hne : denL card leaf a σ₀ ≠ denL card leaf b σ₀)
-    (h : truediv a b = .ok e) : e = .frac a b ∧ Shape card leaf σ₀ e := by
-  sorry
 
 /-- `shape_truediv` is false for `a = Zero()` (`Zero() / b` is `Zero()`, not a `Fraction`; `Shape` does not exclude
 `Zero()`): a counterexample -/
